@@ -125,6 +125,52 @@ CONTRIB_PARAMS = ['self', 'model', 'start_layer', 'end_layer', 'density_offset',
                   'layer', 'density', 'tau', 'path_length']
 
 
+def caller_obligations(ix, R, pfx='2'):
+    """Contribution.contribute / AbsorptionContribution.contribute forward their arguments to the kernel (shared with C03)."""
+    # ---- 2. callers of the kernel
+    site = K + '::Contribution.contribute'
+    stmt = 'contribute() forwards its arguments to the matching kernel roles'
+    with R.guard(pfx + '.base', 'ARG', site, stmt):
+        f = ix.func(site)
+        fl = mkflow(ix, site)
+        ev = one(calls(fl, 'contribute_tau'), 'call of contribute_tau')
+        b = param_env(fl, f, CONTRIB_PARAMS[1:])
+        if ev.guards or ev.loops:
+            R.fail(pfx + '.base.uncond', 'DOM', site,
+                   'kernel call is unconditional', 'conditional kernel call',
+                   'call is under %s' % [g.text() for g in ev.guards],
+                   f.loc(ev.node))
+        else:
+            R.ok(pfx + '.base.uncond', 'DOM', site, 'kernel call is unconditional')
+        arg_roles(R, pfx + '.base', site, stmt, fl, ev,
+                  ix.func(K + '::contribute_tau').params(),
+                  {'startK': 'start_layer', 'endK': 'end_layer',
+                   'density_offset': 'density_offset',
+                   'sigma': 'self.sigma_xsec', 'density': 'density',
+                   'path': 'path_length', 'ngrid': 'self._ngrid',
+                   'layer': 'layer', 'tau': 'tau'}, f, b)
+    site = A + '::AbsorptionContribution.contribute'
+    stmt = 'cross-section branch forwards all arguments unchanged to Contribution.contribute'
+    with R.guard(pfx + '.abs', 'ARG', site, stmt):
+        f = ix.func(site)
+        fl = mkflow(ix, site)
+        b = param_env(fl, f, CONTRIB_PARAMS[1:])
+        evs = [e for e in calls(fl, 'contribute')
+               if unparse(e.node.func).startswith('super()')]
+        ev = one(evs, 'super().contribute call')
+        g = [x for x in ev.guards]
+        okg = len(g) == 1 and not g[0].positive and \
+            fl.tab.equal(g[0].rf, code(fl, 'self._use_ktables'))
+        R.check(pfx + '.abs.branch', 'GUARD', site,
+                'cross-section kernel is used exactly when k-tables are off',
+                okg, key='guard: ' + ' and '.join(x.text() for x in g),
+                detail='super().contribute is guarded by %s' % [x.text() for x in g],
+                loc=f.loc(ev.node))
+        arg_roles(R, pfx + '.abs', site, stmt, fl, ev, CONTRIB_PARAMS,
+                  {p: p for p in CONTRIB_PARAMS[1:]}, f, b, drop_self=True)
+
+
+
 def run(ix, R):
     _run(ix, R)
     from rules.common import memo_obligation
@@ -137,47 +183,7 @@ def _run(ix, R):
                        'sigma[k+layer, wn]*path[k]*density[k+density_offset]',
                        'cross-section kernel')
 
-    # ---- 2. callers of the kernel
-    site = K + '::Contribution.contribute'
-    stmt = 'contribute() forwards its arguments to the matching kernel roles'
-    with R.guard('2.base', 'ARG', site, stmt):
-        f = ix.func(site)
-        fl = mkflow(ix, site)
-        ev = one(calls(fl, 'contribute_tau'), 'call of contribute_tau')
-        b = param_env(fl, f, CONTRIB_PARAMS[1:])
-        if ev.guards or ev.loops:
-            R.fail('2.base.uncond', 'DOM', site,
-                   'kernel call is unconditional', 'conditional kernel call',
-                   'call is under %s' % [g.text() for g in ev.guards],
-                   f.loc(ev.node))
-        else:
-            R.ok('2.base.uncond', 'DOM', site, 'kernel call is unconditional')
-        arg_roles(R, '2.base', site, stmt, fl, ev,
-                  ix.func(K + '::contribute_tau').params(),
-                  {'startK': 'start_layer', 'endK': 'end_layer',
-                   'density_offset': 'density_offset',
-                   'sigma': 'self.sigma_xsec', 'density': 'density',
-                   'path': 'path_length', 'ngrid': 'self._ngrid',
-                   'layer': 'layer', 'tau': 'tau'}, f, b)
-    site = A + '::AbsorptionContribution.contribute'
-    stmt = 'cross-section branch forwards all arguments unchanged to Contribution.contribute'
-    with R.guard('2.abs', 'ARG', site, stmt):
-        f = ix.func(site)
-        fl = mkflow(ix, site)
-        b = param_env(fl, f, CONTRIB_PARAMS[1:])
-        evs = [e for e in calls(fl, 'contribute')
-               if unparse(e.node.func).startswith('super()')]
-        ev = one(evs, 'super().contribute call')
-        g = [x for x in ev.guards]
-        okg = len(g) == 1 and not g[0].positive and \
-            fl.tab.equal(g[0].rf, code(fl, 'self._use_ktables'))
-        R.check('2.abs.branch', 'GUARD', site,
-                'cross-section kernel is used exactly when k-tables are off',
-                okg, key='guard: ' + ' and '.join(x.text() for x in g),
-                detail='super().contribute is guarded by %s' % [x.text() for x in g],
-                loc=f.loc(ev.node))
-        arg_roles(R, '2.abs', site, stmt, fl, ev, CONTRIB_PARAMS,
-                  {p: p for p in CONTRIB_PARAMS[1:]}, f, b, drop_self=True)
+    caller_obligations(ix, R, '2')
 
     # ---- 3. path_integral
     site = T + '::TransmissionModel.path_integral'
@@ -480,4 +486,16 @@ EQUIVALENTS = [
      'contrib.contribute(self, 0, self.nLayers - layer, layer, layer,'),
     ('pi-rename-loopvar', T, "for contrib in self.contribution_list:\n                if tau[layer].min() > 10:\n                    break\n                self.debug('Adding contribution from %s', contrib.name)\n                contrib.contribute(",
      "for cc in self.contribution_list:\n                if tau[layer].min() > 10:\n                    break\n                cc.contribute("),
+]
+# statements that implement an unconditional part of the documented behaviour: wrapped in an `if`
+# (so that they may be skipped) each must be reported - generated and checked by the thorough tier
+UNCONDITIONAL = [
+    ('taurex/contributions/contribution.py', 'tau[layer, wn] += sigma[k + layer, wn]'),
+    ('taurex/contributions/contribution.py', 'contribute_tau(start_layer'),
+    ('taurex/model/transmission.py', 'k[0] = np.sqrt'),
+    ('taurex/model/transmission.py', 'k[1:] = np.sqrt'),
+    ('taurex/model/transmission.py', 'k[1:] -= np.sqrt'),
+    ('taurex/model/transmission.py', 'dl.append(k * 2.0)'),
+    ('taurex/model/transmission.py', 'contrib.contribute(self, 0, endK, layer, layer'),
+    ('taurex/model/transmission.py', 'absorption, tau = self.compute_absorption(tau, dz)'),
 ]
